@@ -388,8 +388,12 @@ class Runner:
         if ghost:
             oos = {l for l, ins in nr["junctions"] if not ins}
             sig = {"fn": "create_nxgraph", "kind": "ghost_nodes"}
+            js = {l for l, _ in nr["junctions"]}
             if kw.get("notravjunctions") and set(ghost) <= oos:
                 sig["cause"] = "notrav_next_to_out_of_service"
+            elif not (set(ghost) & oos) and any(p and b not in js for t, rows in nr["tables"] for (l, a, b, x, w, p) in rows):
+                # an in-service junction is missing in the graph: the pipe label of a pi valve took its place in the count
+                sig.update({"column": "valve.element", "clause": "pipe_valve_adds_no_edge"})
             ctx.violation(sig, "distance function %s(%s, %s) returns distances to %s, which are not nodes of the graph "
                           "(out of service / nogo)" % (which, srcs, args, ghost), replay)
         dist = []
